@@ -8,7 +8,9 @@ import (
 	"encoding/gob"
 	"sync"
 
+	"github.com/grailbio/bigslice/frame"
 	"github.com/grailbio/bigslice/internal/simhook"
+	"github.com/grailbio/bigslice/sliceio"
 )
 
 // Verification accessors (build tag verif). They add no behaviour.
@@ -91,3 +93,14 @@ func VerifRecompile(t *Task, machineCombiners, gobTrip bool, resolve func(index 
 
 // VerifMachineCombiners reports the session's machine-combiner setting.
 func VerifMachineCombiners(s *Session) bool { return s.machineCombiners }
+
+// VerifMultiReader returns the executor-internal multi reader over readers.
+func VerifMultiReader(readers []sliceio.Reader) sliceio.Reader {
+	return &multiReader{q: readers}
+}
+
+// VerifTaskBufferReader returns a reader of one partition of a task buffer
+// made of the provided frames (indexed by partition).
+func VerifTaskBufferReader(parts [][]frame.Frame, partition int) sliceio.ReadCloser {
+	return taskBuffer(parts).Reader(partition)
+}
